@@ -92,9 +92,10 @@ package capella
 //@   loop *
 //@     invariant ctx_t >= old(ctx_t) && (old(ctx_seen) || !ctx_seen)
 //@     invariant ctx_t > old(ctx_t) ==> !ctx_cancelled(ctx, old(ctx_t))
+//@   assigns ghost(n_set_wcred), ghost(set_wcred_v), ghost(set_wcred_val)
 
 //@ func ProcessBLSToExecutionChange(ctx, spec, epc, state, op) err
-//@   property C18
+//@   property C18 C03 C01
 //@   panics off
 //@   requires ctx != nil
 //@   opt weakcalls
@@ -106,6 +107,12 @@ package capella
 //@   loop *
 //@     invariant ctx_t >= old(ctx_t) && (old(ctx_seen) || !ctx_seen)
 //@     invariant ctx_t > old(ctx_t) ==> !ctx_cancelled(ctx, old(ctx_t))
+//@   assigns ghost(n_set_wcred), ghost(set_wcred_v), ghost(set_wcred_val)
+//@   ensures c03_index: err == nil && state != nil && op != nil ==> !st_vals_err(state) && !reg_len_err(st_vals(state)) && old(op.BLSToExecutionChange).ValidatorIndex < reg_len(st_vals(state))
+//@   ensures c03_bls_prefix: err == nil && state != nil && op != nil ==> v_wcred(reg_val(st_vals(state), old(op.BLSToExecutionChange).ValidatorIndex))[0] == 0
+//@   ensures c03_pubkey_hash: err == nil && state != nil && op != nil ==> (forall k :: 1 <= k && k < 32 ==> v_wcred(reg_val(st_vals(state), old(op.BLSToExecutionChange).ValidatorIndex))[k] == sha256(seq(old(op.BLSToExecutionChange).FromBLSPubKey))[k])
+//@   ensures c03_signature: err == nil && state != nil && op != nil && spec != nil ==> !st_gvr_err(state) && pub_valid(old(op.BLSToExecutionChange).FromBLSPubKey) && sig_valid(old(op.Signature)) && bls_ok(old(op.BLSToExecutionChange).FromBLSPubKey, seq(signing_root(blschg_root(old(op.BLSToExecutionChange)), compute_domain(common.DOMAIN_BLS_TO_EXECUTION_CHANGE, spec.GENESIS_FORK_VERSION, st_gvr(state)))), old(op.Signature))
+//@   ensures c01_credentials: err == nil && state != nil && op != nil ==> n_set_wcred == old(n_set_wcred) + 1 && set_wcred_v == reg_val(st_vals(state), old(op.BLSToExecutionChange).ValidatorIndex) && set_wcred_val[0] == 1 && (forall k :: 1 <= k && k < 12 ==> set_wcred_val[k] == 0) && (forall k :: 12 <= k && k < 32 ==> set_wcred_val[k] == old(op.BLSToExecutionChange).ToExecutionAddress[k - 12])
 
 //@ func VerifyAndNotifyNewPayload(ctx, eng, newPayloadRequest) (r0, err)
 //@   property C18
@@ -162,6 +169,7 @@ package capella
 //@     invariant ctx_t >= old(ctx_t) && (old(ctx_seen) || !ctx_seen)
 //@     invariant ctx_t > old(ctx_t) ==> !ctx_cancelled(ctx, old(ctx_t))
 //@   assigns ghost(n_set_score)
+//@   assigns ghost(n_biter), ghost(biter_pos), ghost(biter_reg), ghost(n_set_eb)
 //@   assigns ghost(n_eth1_reset), ghost(n_slash_reset), ghost(last_slash_reset), ghost(n_set_mix), ghost(last_set_mix_epoch), ghost(last_set_mix), ghost(n_hist_update)
 //@   assigns ghost(n_set_prevjust), ghost(set_prevjust), ghost(n_set_curjust), ghost(set_curjust), ghost(n_set_fin), ghost(set_fin), ghost(n_set_jbits), ghost(set_jbits)
 //@   assigns ghost(n_viter), ghost(viter_pos), ghost(viter_reg), ghost(n_val_write), ghost(n_set_exit), ghost(set_exit_v), ghost(set_exit_val), ghost(n_set_wd), ghost(set_wd_v), ghost(set_wd_val)
@@ -181,6 +189,7 @@ package capella
 //@     invariant ctx_t >= old(ctx_t) && (old(ctx_seen) || !ctx_seen)
 //@     invariant ctx_t > old(ctx_t) ==> !ctx_cancelled(ctx, old(ctx_t))
 //@   assigns ghost(n_eng_notify), ghost(n_set_exec_header)
+//@   assigns ghost(n_set_wcred), ghost(set_wcred_v), ghost(set_wcred_val)
 //@   assigns ghost(n_set_mix), ghost(last_set_mix_epoch), ghost(last_set_mix)
 //@   assigns ghost(n_set_lhdr), ghost(set_lhdr)
 //@   assigns ghost(n_viter), ghost(viter_pos), ghost(viter_reg), ghost(n_val_write), ghost(n_set_exit), ghost(set_exit_v), ghost(set_exit_val), ghost(n_set_wd), ghost(set_wd_v), ghost(set_wd_val)
